@@ -12,7 +12,7 @@ import sys
 import time
 
 HERE = os.path.dirname(os.path.dirname(os.path.abspath(__file__)))
-SCRATCH = "/tmp/seeded-repo"
+SCRATCH = os.environ.get("SEEDED_SCRATCH", "/tmp/seeded-repo")
 
 
 def sh(cmd, **kw):
